@@ -585,73 +585,98 @@ def rule_r8(ctx) -> List[R.Inst]:
 
 
 def _append_paths(stmts, name: str):
-    """number of `<name>.append(...)` calls along each path through stmts -> set of counts; other writes to <name> -> list"""
-    counts = {0}
+    """number of `<name>.append(...)` calls along each path through stmts (a `continue` / `break` ends a path) -> set of
+    counts; other writes to <name> -> list"""
     other = []
-    for s_ in stmts:
-        if isinstance(s_, ast.If):
-            a, oa = _append_paths(s_.body, name)
-            b, ob = _append_paths(s_.orelse, name)
-            other += oa + ob
-            counts = {x + y for x in counts for y in (a | b)}
-            continue
-        if isinstance(s_, (ast.For, ast.While, ast.Try, ast.With)):
-            other.append(s_)
-            continue
-        n_app = 0
-        for n in ast.walk(s_):
-            if isinstance(n, ast.Call) and isinstance(n.func, ast.Attribute) and isinstance(n.func.value, ast.Name) and \
-                    n.func.value.id == name:
-                if n.func.attr == "append":
-                    n_app += 1
-                elif n.func.attr in ("pop", "insert", "extend", "remove", "clear"):
-                    other.append(n)
-            if isinstance(n, (ast.Assign, ast.AugAssign, ast.Delete)):
-                ts = n.targets if isinstance(n, (ast.Assign, ast.Delete)) else [n.target]
-                for t in ts:
-                    if isinstance(t, ast.Subscript) and isinstance(t.value, ast.Name) and t.value.id == name:
+
+    def walk(stmts_, counts):
+        """counts: set of append counts of the paths that reach this point; returns (fallthrough counts, finished counts)"""
+        done = set()
+        for s_ in stmts_:
+            if not counts:
+                break
+            if isinstance(s_, ast.If):
+                a, da = walk(s_.body, set(counts))
+                b, db = walk(s_.orelse, set(counts))
+                done |= da | db
+                counts = a | b
+                continue
+            if isinstance(s_, (ast.Continue, ast.Break)):
+                done |= counts
+                counts = set()
+                continue
+            if isinstance(s_, (ast.For, ast.While, ast.Try, ast.With)):
+                other.append(s_)
+                continue
+            n_app = 0
+            for n in ast.walk(s_):
+                if isinstance(n, ast.Call) and isinstance(n.func, ast.Attribute) and isinstance(n.func.value, ast.Name) and \
+                        n.func.value.id == name:
+                    if n.func.attr == "append":
+                        n_app += 1
+                    elif n.func.attr in ("pop", "insert", "extend", "remove", "clear"):
                         other.append(n)
-        counts = {x + n_app for x in counts}
-    return counts, other
+                if isinstance(n, (ast.Assign, ast.AugAssign, ast.Delete)):
+                    ts = n.targets if isinstance(n, (ast.Assign, ast.Delete)) else [n.target]
+                    for t in ts:
+                        if isinstance(t, ast.Subscript) and isinstance(t.value, ast.Name) and t.value.id == name:
+                            other.append(n)
+            counts = {x + n_app for x in counts}
+        return counts, done
+    fall, done = walk(stmts, {0})
+    return fall | done, other
 
 
 def rule_r9(ctx) -> List[R.Inst]:
     """the time list and the position list of a timing map are parallel: bpm_changes_offset_to_snap yields exactly one
-    position entry per tempo change (TimingMap.offsets / snaps / beats index the two lists with the same index)"""
+    position entry per tempo change and from_bpm_changes_snap exactly one time entry per tempo change (TimingMap.offsets /
+    snaps / beats index the two lists with the same index)"""
     M = ctx.M
     rid = "C10.R9"
-    q = "reamber.algorithms.timing.utils.bpm_changes_offset_to_snap.bpm_changes_offset_to_snap"
-    fn = M.fn(q)
-    file = M.mods[fn.mod].rel
-    rets = [n for n in walk_no_nested(fn.node) if isinstance(n, ast.Return) and isinstance(n.value, ast.Name)]
-    if len(rets) != 1:
-        return [R.undec(rid, "one-per-change", file, fn.node.lineno, "returned list not found")]
-    out = rets[0].value.id
-    inits = [n for n in fn.node.body if isinstance(n, (ast.Assign, ast.AnnAssign)) and
-             isinstance(n.targets[0] if isinstance(n, ast.Assign) else n.target, ast.Name) and
-             (n.targets[0] if isinstance(n, ast.Assign) else n.target).id == out]
-    loops = [n for n in fn.node.body if isinstance(n, ast.For)]
-    if len(inits) != 1 or len(loops) != 1 or not isinstance(inits[0].value, ast.List):
-        return [R.undec(rid, "one-per-change", file, fn.node.lineno, "initial list / pairing loop not found")]
-    n0 = len(inits[0].value.elts)
-    it = unparse(loops[0].iter).replace(" ", "")
-    pairs = it.startswith("zip(") and "[:-1]" in it and "[1:]" in it      # n-1 consecutive pairs
-    counts, other = _append_paths(loops[0].body, out)
-    probs = []
-    if not pairs:
-        probs.append(f"the loop does not run over the n-1 consecutive pairs ({it[:60]})")
-    if n0 != 1:
-        probs.append(f"the list starts with {n0} entries for the first tempo change")
-    if counts != {1}:
-        probs.append(f"an iteration appends {sorted(counts)} entries depending on the path, not exactly one")
-    if other:
-        probs.append(f"entries of '{out}' are replaced / removed inside the loop ({unparse(other[0])[:60]})")
-    if probs:
-        return [R.viol(rid, "one-per-change", file, loops[0].lineno,
-                       "the position list no longer has one entry per tempo change: " + "; ".join(probs) +
-                       " — TimingMap indexes the time list and the position list with the same index",
-                       construct="; ".join(probs)[:200])]
-    return [R.ok(rid, "one-per-change", file, loops[0].lineno, idiom="1 initial entry + exactly one append per consecutive pair")]
+    insts = []
+    for q, key, what in (
+            ("reamber.algorithms.timing.utils.bpm_changes_offset_to_snap.bpm_changes_offset_to_snap", "one-per-change", "position"),
+            ("reamber.algorithms.timing.utils.from_bpm_changes_snap.from_bpm_changes_snap", "one-time-per-change", "time")):
+        fn = M.fn(q)
+        file = M.mods[fn.mod].rel
+        loops = [n for n in fn.node.body if isinstance(n, ast.For)]
+        # the list that is built: returned by name, or handed to TimingMap(bpm_changes_offset=<name>)
+        out = None
+        for n in walk_no_nested(fn.node):
+            if isinstance(n, ast.Return) and isinstance(n.value, ast.Name) and any(
+                    isinstance(x, ast.Call) and call_name(x) == "append" and unparse(x.func.value) == n.value.id for lp in loops for x in ast.walk(lp)):
+                out = n.value.id
+            if isinstance(n, ast.Call) and call_name(n) == "TimingMap":
+                for k in n.keywords:
+                    if isinstance(k.value, ast.Name):
+                        out = out or k.value.id
+        inits = [n for n in fn.node.body if isinstance(n, (ast.Assign, ast.AnnAssign)) and
+                 isinstance(n.targets[0] if isinstance(n, ast.Assign) else n.target, ast.Name) and
+                 (n.targets[0] if isinstance(n, ast.Assign) else n.target).id == out]
+        if out is None or len(inits) != 1 or len(loops) != 1 or not isinstance(inits[0].value, ast.List):
+            insts.append(R.undec(rid, key, file, fn.node.lineno, "initial list / pairing loop not found"))
+            continue
+        n0 = len(inits[0].value.elts)
+        it = unparse(loops[0].iter).replace(" ", "")
+        pairs = it.startswith("zip(") and "[:-1]" in it and "[1:]" in it      # n-1 consecutive pairs
+        counts, other = _append_paths(loops[0].body, out)
+        probs = []
+        if not pairs:
+            probs.append(f"the loop does not run over the n-1 consecutive pairs ({it[:60]})")
+        if n0 != 1:
+            probs.append(f"the list starts with {n0} entries for the first tempo change")
+        if counts != {1}:
+            probs.append(f"an iteration appends {sorted(counts)} entries depending on the path (a skipped or doubled tempo change), not exactly one")
+        if other:
+            probs.append(f"entries of '{out}' are replaced / removed inside the loop ({unparse(other[0])[:60]})")
+        if probs:
+            insts.append(R.viol(rid, key, file, loops[0].lineno,
+                                f"the {what} list no longer has one entry per tempo change: " + "; ".join(probs) +
+                                " — TimingMap indexes the time list and the position list with the same index",
+                                construct="; ".join(probs)[:200]))
+        else:
+            insts.append(R.ok(rid, key, file, loops[0].lineno, idiom=f"1 initial entry + exactly one append per consecutive pair ({what} list)"))
+    return insts
 
 
 def rule_r11(ctx) -> List[R.Inst]:
@@ -708,7 +733,7 @@ SPECS = [
     RuleSpec("C10.R5", rule_r5, 3, "A7", "snapping chooses the nearer neighbour of a sorted table"),
     RuleSpec("C10.R7", rule_r7, 1, "A5", "a list's timing map has one change per tempo row, fields from the same row"),
     RuleSpec("C10.R8", rule_r8, 24, "A7", "RAConst unit helpers: exact scaling named by the function, python float result"),
-    RuleSpec("C10.R9", rule_r9, 1, "A8", "one position entry per tempo change (parallel lists)"),
+    RuleSpec("C10.R9", rule_r9, 2, "A8", "one position entry per tempo change (parallel lists)"),
     RuleSpec("C10.R11", rule_r11, 1, "A7", "the requested divisions constrain the fraction table"),
     RuleSpec("C10.D", rule_dep, 1, "M0", "rules of the shared code (list classes and their generated accessors, hidden state) that the timing operations reach"),
     RuleSpec("C10.R6", rule_r6, 6, "A3", "snapping and the position/time conversions write no hidden state"),
